@@ -5,6 +5,9 @@ import json, os, re, subprocess, sys, time, shutil, resource, hashlib
 from concurrent.futures import ThreadPoolExecutor
 
 VERIF = os.path.dirname(os.path.dirname(os.path.abspath(__file__)))
+# XV_OUT: where evidence/, replays/ and work/ go (default /verif itself); used only by the seed tools so that
+# a run against a scratch worktree (XV_REPO) does not overwrite the evidence of /repo
+OUT = os.environ.get('XV_OUT', VERIF)
 REPO = os.environ.get('XV_REPO', '/repo')
 NCPU = int(os.environ.get('XV_JOBS', str(os.cpu_count() or 8)))
 
@@ -452,7 +455,7 @@ def write_evidence(prop, tier, seed, results, jobs, wall, extra, assumptions, tr
     cov.update(extra or {})
     ev = {'property_id': prop, 'tier': tier, 'seed': seed, 'level': level, 'coverage': cov,
           'assumptions': assumptions, 'wall_s': round(wall, 2), 'violations': violations}
-    os.makedirs(os.path.join(VERIF, 'evidence'), exist_ok=True)
-    with open(os.path.join(VERIF, 'evidence', prop + '.json'), 'w') as f:
+    os.makedirs(os.path.join(OUT, 'evidence'), exist_ok=True)
+    with open(os.path.join(OUT, 'evidence', prop + '.json'), 'w') as f:
         json.dump(ev, f, indent=1)
     return ev
